@@ -14,6 +14,9 @@ ids = [i for i in ids if os.path.isdir(f"{ROOT}/seeded/{i}")]
 claimed = {c["property_id"] for c in json.load(open(ROOT + "/MANIFEST.json"))["checks"]}
 if subprocess.run(["git", "-C", "/repo", "diff", "--quiet"]).returncode != 0:
     sys.exit("/repo is not clean")
+import shutil, tempfile
+_keep = tempfile.mkdtemp(prefix="evidence_keep_", dir="/var/tmp")
+shutil.copytree(ROOT + "/evidence", _keep + "/evidence")      # the evidence of the unchanged tree is put back at the end
 rows = []
 for sid in ids:
     d = f"{ROOT}/seeded/{sid}"
@@ -39,6 +42,9 @@ for sid in ids:
     json.dump(meta, open(d + "/meta.json", "w"), indent=1, ensure_ascii=False)
     rows.append((sid, res))
     print(sid, {p: ("VIOLATION" + ("" if v["concrete_input"] else " (no input)") if v["violation_line"] else "missed") for p, v in res.items()}, flush=True)
+shutil.rmtree(ROOT + "/evidence")
+shutil.copytree(_keep + "/evidence", ROOT + "/evidence")
+shutil.rmtree(_keep)
 allrows = []
 for sid in sorted(os.listdir(ROOT + "/seeded")):
     mp = f"{ROOT}/seeded/{sid}/meta.json"
